@@ -7,6 +7,20 @@
 #include <gmssl/hmac.h>
 #include <gmssl/hkdf.h>
 #include <gmssl/sm2.h>
+#include <pthread.h>
+
+/* hashpar: T threads, each hashing (and HMACing) its own message R times through the generic
+ * dispatch; every result must equal the value computed before the threads started. */
+typedef struct { const DIGEST *dg; uint8_t *msg; size_t len; uint8_t ref[64], mref[64]; size_t dl, ml; int rounds; int bad; } par_t;
+static void *par_worker(void *a) {
+	par_t *p = (par_t *)a; int i;
+	for (i = 0; i < p->rounds && !p->bad; i++) {
+		uint8_t d[64], m[64]; size_t dl = 0, ml = 0;
+		if (digest(p->dg, p->msg, p->len, d, &dl) != 1 || dl != p->dl || memcmp(d, p->ref, dl)) p->bad = i + 1;
+		else if (hmac(p->dg, p->msg, 16, p->msg, p->len, m, &ml) != 1 || ml != p->ml || memcmp(m, p->mref, ml)) p->bad = -(i + 1);
+	}
+	return NULL;
+}
 
 #define MAXC 128
 static buf_t ch[MAXC];
@@ -85,6 +99,21 @@ static void handle(size_t nw, char **w) {
 		if (ok && hmac_finish(&c, d, &dl) != 1) ok = 0;
 		if (ok) puthex(d, dl); else printf("ERR");
 		free(d); free(key.p); free_chunks(ch, k);
+	}
+	else if (!strcmp(w[0], "hashpar") && nw == 5) {      /* hashpar alg T R len */
+		const DIGEST *dg = digest_from_name(w[1]); int T = atoi(w[2]), R = atoi(w[3]), t, bad = 0; size_t len = strtoul(w[4], NULL, 10), i;
+		par_t ps[8]; pthread_t th[8];
+		if (!dg || T < 1 || T > 8) { printf("ERR"); return; }
+		for (t = 0; t < T; t++) {
+			ps[t].dg = dg; ps[t].len = len + 16 + (size_t)t * 7; ps[t].msg = malloc(ps[t].len); ps[t].rounds = R; ps[t].bad = 0;
+			for (i = 0; i < ps[t].len; i++) ps[t].msg[i] = (uint8_t)(i * 31 + t * 101 + 7);
+			digest(dg, ps[t].msg, ps[t].len, ps[t].ref, &ps[t].dl);
+			hmac(dg, ps[t].msg, 16, ps[t].msg, ps[t].len, ps[t].mref, &ps[t].ml);
+		}
+		for (t = 0; t < T; t++) pthread_create(&th[t], NULL, par_worker, &ps[t]);
+		for (t = 0; t < T; t++) pthread_join(th[t], NULL);
+		for (t = 0; t < T; t++) { if (ps[t].bad && !bad) { printf("RACE thread=%d %s round=%d", t, ps[t].bad > 0 ? "digest" : "hmac", abs(ps[t].bad)); bad = 1; } free(ps[t].msg); }
+		if (!bad) printf("OK");
 	}
 	else if (!strcmp(w[0], "hmacv") && nw == 5) {        /* hmac_init/update/finish_and_verify against a candidate MAC */
 		const DIGEST *dg = digest_from_name(w[1]);
